@@ -16,7 +16,7 @@ Ltac expose :=
 
 Ltac pstep :=
   lazymatch goal with
-  | |- plainP _ _ _ _ (Ret _) => apply PRet; (let i := fresh "i" in let Hi := fresh "Hi" in intros i Hi; cbn [In] in Hi |- *; tauto)
+  | |- plainP _ _ _ _ (Ret _) => apply PRet; (let i := fresh "i" in let Hi := fresh "Hi" in intros i Hi; cbn [In app] in Hi |- *; tauto)
   | |- plainP _ _ _ _ (Fail _) => apply PFail; first [repeat split; discriminate | left; reflexivity | right; reflexivity]
   | |- plainP _ _ _ _ (Do (Spi _) _ _) =>
     apply PSpi; [cbn [seg_w app]; discriminate | lazy; reflexivity
@@ -458,7 +458,7 @@ Section K126.
   Qed.
 
   (* ---- what the prepared states rely on *)
-  Definition kind126_ok g (HD : g_dcdc g = dc) (HT : tc = match g_tcxo g with Some _ => true | None => false end) (LO : True) : kind_ok x (kind126 g).
+  Definition kind126_ok g (HD : g_dcdc g = dc) (HT : tc = match g_tcxo g with Some _ => true | None => false end) : kind_ok x (kind126 g).
   Proof.
     refine {| it_init := it_init126; it_power := [ITxParams; IPaConfig]; it_mod := [IMod]; it_pkt := [IPkt]; it_chan := [IFreq]; it_irq := [IIrq];
               it_payload := []; it_sync := [ISync]; it_cad := it_cad126 |}.
